@@ -228,7 +228,10 @@ static void step_log(const char* fn, int kind, const volatile void* addr, uintpt
   vf_logf(",\"fl\":[%d,%ld]}", fp ? f.pg : 0, f.idx); vf_log_line_end();
   nsteps++;
 }
+static int park_k = 0;      /* --park K: a thread that has just set DELAYED_FREEING is (sometimes) not scheduled for the next K yields of the others */
 static void vf_trace_step(const char* fn, int kind, const volatile void* addr, uintptr_t oldv, uintptr_t newv, int ok) {
+  if (park_k > 0 && kind == VF_K_CASW && ok && (newv & 3) == MI_DELAYED_FREEING && (oldv & 3) == MI_USE_DELAYED_FREE && vf_park_left == 0
+      && fn[0] == 'm' && !strcmp(fn, "mi_free_block_delayed_mt") && (vf_srand() % 2) == 0) { vf_park_tid = vf_self; vf_park_left = park_k; }
   if (steps_on && kind >= VF_K_LOAD && kind <= VF_K_OR) { vf_in_hook = 1; int saved = vf_in_call; vf_in_call = 0; step_log(fn, kind, addr, oldv, newv, ok); vf_in_call = saved; vf_in_hook = 0; }
   if (snap_heap < 0 || kind == VF_K_LOAD) return;
   if ((vf_srand() % (uint64_t)snap_rate) != 0) return;
@@ -727,6 +730,7 @@ int main(int argc, char** argv) {
     else if (!strcmp(argv[i], "--size") && i + 2 < argc) { blk_lo = (size_t)atol(argv[++i]); blk_hi = (size_t)atol(argv[++i]); }
     else if (!strcmp(argv[i], "--sched") && i + 1 < argc) schedfile = argv[++i];
     else if (!strcmp(argv[i], "--steps") && i + 1 < argc) { steps_on = atoi(argv[++i]); }
+    else if (!strcmp(argv[i], "--park") && i + 1 < argc) { park_k = atoi(argv[++i]); }
     else if (!strcmp(argv[i], "--segs") && i + 1 < argc) { seg_snap_on = 1; seg_snap_every = atoi(argv[++i]); if (seg_snap_every < 1) seg_snap_every = 1; seg_quiet = conc_quiet; }
     else if (!strcmp(argv[i], "--snap") && i + 1 < argc) { snapshots_on = 1; snap_rate = atoi(argv[++i]); if (snap_rate < 1) snap_rate = 1; }
     else { fprintf(stderr, "usage: drv_conc --out F [--prog P] [--seed S] [--runs N] [--strategy random|pct|guided|replay|dfs] [--sched file]\n"); return 2; }
